@@ -136,6 +136,9 @@ func specConstraints(f *Flow, t *Txn) verdict {
 		v = vAnd(v, May) // system flows without methods: the five default verbs only (not in the text)
 	}
 	if t.Resp {
+		if len(f.Status) > 0 && t.NoResp {
+			return MustNot // a status requirement can only be met by a response that has a status
+		}
 		if len(f.Status) > 0 {
 			ok := false
 			for _, s := range f.Status {
@@ -215,29 +218,106 @@ func sameStep(a, b spart) bool {
 	return a.tok == b.tok
 }
 
-// shadowed: "a more specific literal pattern is configured alongside": some other
-// loaded pattern agrees with f's pattern up to a position where f has a
-// parameter and the other one has the literal the URL carries there.
-func shadowed(f *Flow, flows []Flow, url string) bool {
-	p := specSplit(f.URL, false)
-	u := specSplit(url, false)
-	for _, g := range flows {
-		q := specSplit(g.URL, false)
-		for i := 0; i < len(p) && i < len(q) && i < len(u); i++ {
-			if isParam(p[i].tok) && !isParam(q[i].tok) && q[i].tok != "*" && q[i].tok == u[i].tok {
-				return true
-			}
-			if !sameStep(p[i], q[i]) {
-				break
-			}
+// lookupParts: the URL as the look-up splits it (leading / trailing "." and "/"
+// dropped): the side conditions of the known findings are stated on these parts.
+func lookupParts(url string) []spart { return specSplit(strings.Trim(url, "./"), false) }
+
+// moreSpecific: pattern q is more specific than pattern p for the URL u: q agrees
+// with p step by step up to a position where p has a parameter and q carries
+// the URL's token literally, as a part of the same kind (host label / path
+// segment) as the URL's part.  (= Coq more_specific_from)
+func moreSpecific(p, q, u []spart) bool {
+	for i := 0; i < len(p) && i < len(q) && i < len(u); i++ {
+		if isParam(p[i].tok) && !isParam(q[i].tok) && q[i].tok != "*" &&
+			q[i].tok == u[i].tok && q[i].host == u[i].host {
+			return true
+		}
+		if !sameStep(p[i], q[i]) {
+			break
 		}
 	}
 	return false
 }
 
+// shadowedK: "a more specific literal pattern is configured alongside", read
+// broadly: SOME configured pattern is more specific than f's for this URL,
+// whether or not that pattern accepts the URL.  (= Coq shadowed_k = negb unshadowed_k)
+func shadowedK(f *Flow, flows []Flow, url string) bool {
+	p, u := specSplit(f.URL, false), lookupParts(url)
+	for _, g := range flows {
+		if moreSpecific(p, specSplit(g.URL, false), u) {
+			return true
+		}
+	}
+	return false
+}
+
+// shadowedByMatching: the natural reading of the proviso: a more specific
+// pattern that itself accepts the URL is configured.  "Accepts" in the most
+// generous reading (a trailing * takes any remainder, also none, of any kind),
+// so that the monitor never demands a flow the text might exempt.
+// (= Coq shadowed_by_matching with accepts_may)
+func shadowedByMatching(f *Flow, flows []Flow, url string) bool {
+	p, u := specSplit(f.URL, false), lookupParts(url)
+	for _, g := range flows {
+		if moreSpecific(p, specSplit(g.URL, false), u) && specURLx(g.URL, url, true) != MustNot {
+			return true
+		}
+	}
+	return false
+}
+
+// stepFits: the look-up reads the kind of a node only when the node's step
+// accepts the URL's token: a literal equal to it, or a parameter (the kind of a
+// wildcard child is never read).
+func stepFits(s, u spart) bool {
+	if isParam(s.tok) {
+		return true
+	}
+	return s.tok != "*" && s.tok == u.tok
+}
+
+// kindCompatOn: patterns p and q do not collide (host label vs path segment) on
+// a node the look-up of u reads.  (= Coq kind_compat_on)
+func kindCompatOn(u, p, q []spart) bool {
+	for n := 0; n < len(u) && n < len(p) && n < len(q); n++ {
+		if !(sameStep(p[n], q[n]) && stepFits(p[n], u[n])) {
+			return true
+		}
+		if p[n].host != q[n].host {
+			return false
+		}
+	}
+	return true
+}
+
+// kcAt: no configured pattern collides with f's on this URL (open finding
+// F-C03c, localised to the flow and the URL in question = Coq kc_at).
+func kcAt(flows []Flow, f *Flow, url string) bool {
+	u, p := lookupParts(url), specSplit(f.URL, false)
+	for i := range flows {
+		if !kindCompatOn(u, p, specSplit(flows[i].URL, false)) {
+			return false
+		}
+	}
+	return true
+}
+
+// kcURL: no two configured patterns collide on this URL (= Coq kc_url).
+func kcURL(flows []Flow, url string) bool {
+	for i := range flows {
+		if !kcAt(flows, &flows[i], url) {
+			return false
+		}
+	}
+	return true
+}
+
 // kindCollision: two patterns reach the same step position through identical
 // steps but disagree on whether that step is a host label or a path segment
-// (e.g. "api.com.v1/x" and "api.com/v1").  Open finding F-C03c.
+// (e.g. "api.com.v1/x" and "api.com/v1").  Open finding F-C03c, GLOBAL form (=
+// Coq kind_consistent): only used to pick engine-level samples whose selection
+// cannot depend on the Go-map load order; hits are classified with kcAt / kcURL.
 func kindCollision(flows []Flow) bool {
 	for i := range flows {
 		for j := range flows {
@@ -267,14 +347,7 @@ func checkSelection(flows []Flow, addErr []bool, o *Obs) []finding {
 	for _, id := range o.Selected {
 		sel[id]++
 	}
-	collide := kindCollision(flows)
 	wellFormedSet := allWellFormed(flows) // a malformed declaration alongside may disturb others: not judged
-	tag := func(s string) string {
-		if collide {
-			return "host-path-collision:insert"
-		}
-		return s
-	}
 	for i := range flows {
 		f := &flows[i]
 		if i < len(addErr) && addErr[i] {
@@ -283,26 +356,43 @@ func checkSelection(flows []Flow, addErr []bool, o *Obs) []finding {
 		if !patternOK(specSplit(f.URL, false)) {
 			continue // not a well-formed pattern: the text says nothing about it
 		}
+		// F-C03c excuses a hit only when a configured pattern collides with THIS
+		// flow's pattern on a node the look-up of THIS URL reads
+		collide := !kcAt(flows, f, o.Txn.URL)
+		tag := func(s string) string {
+			if collide {
+				return "host-path-collision:insert"
+			}
+			return s
+		}
 		v := specFlow(f, &o.Txn)
 		n := sel[f.ID]
 		switch {
 		case n > 1:
-			out = append(out, finding{tag("duplicate:GetFlow"), "a flow is applied at most once",
+			// never excused: no collision makes a flow run twice (C03_at_most_once)
+			out = append(out, finding{"duplicate:GetFlow", "a flow is applied at most once",
 				fmt.Sprintf("flow %s (%s) returned %d times for %s", flowName(f.ID), f.URL, n, o.Txn.URL)})
 		case n > 0 && v == MustNot:
 			sig := tag("unsound-url:lookupFlow")
 			if specURL(f.URL, o.Txn.URL) != MustNot {
-				sig = tag("unsound-constraint:qualify")
+				// the flow's own constraints: no collision excuses that (C03_selected_own_constraints)
+				sig = "unsound-constraint:qualify"
 			} else if specURLx(f.URL, o.Txn.URL, true) != MustNot {
 				sig = "wildcard-kind:lookupFlow" // a.com/* selected for a.com.x/... (F-C03f)
 			}
 			out = append(out, finding{sig,
 				fmt.Sprintf("flow %s (filter %s) must not be applied: transaction does not satisfy its own filter", flowName(f.ID), f.URL),
 				fmt.Sprintf("selected for %s %s (selected=%v)", o.Txn.Method, o.Txn.URL, o.Selected)})
-		case n == 0 && v == Must && wellFormedSet && !shadowed(f, flows, o.Txn.URL):
+		case n == 0 && v == Must && wellFormedSet && !shadowedK(f, flows, o.Txn.URL):
 			out = append(out, finding{tag("incomplete:lookupFlow"),
 				fmt.Sprintf("flow %s (filter %s) is satisfied and no more specific literal pattern is configured alongside: must be applied", flowName(f.ID), f.URL),
 				fmt.Sprintf("not selected for %s %s (selected=%v)", o.Txn.Method, o.Txn.URL, o.Selected)})
+		case n == 0 && v == Must && wellFormedSet && !shadowedByMatching(f, flows, o.Txn.URL):
+			// shadowed only by patterns that do NOT accept this URL: the look-up
+			// committed to the literal child and never came back (F-C03g)
+			out = append(out, finding{tag("no-backtrack:lookupFlow"),
+				fmt.Sprintf("flow %s (filter %s) is satisfied and no configured pattern that accepts %s is more specific: must be applied", flowName(f.ID), f.URL, o.Txn.URL),
+				fmt.Sprintf("not selected for %s %s (selected=%v): a more specific pattern that does not accept the URL took the look-up away", o.Txn.Method, o.Txn.URL, o.Selected)})
 		}
 	}
 	return out
